@@ -3,6 +3,11 @@
 import json, os, subprocess
 
 CLAIMS = {
+ "C16": dict(
+   category="exploration", design_ref="DESIGN.md §5 C16",
+   technique="model-based testing (rapid): generated sequences of FocusedTransforms and selector-driven WalkTransforming over generated linked graphs, compared with a reference pure functional update / top-down replacement on the abstract graph, with separate read and write stores and input snapshots",
+   text="Sequences of 1-4 focused transforms (replace / identity / remove; existing positions, new keys, list append, missing parents with and without createParents, targets below links, error targets) are applied through FocusedTransform and through a reference update on the abstract graph that also computes the new content addresses: results must be equal including every link, every callback must see the node at the target with the target's path, updated blocks must be in the write store and nothing else, the input node and the read store must be unchanged, errors must occur exactly where the reference fails. WalkTransforming with generated selectors must hand exactly the matched nodes to the function and return the reference replacement (one known finding: crossed blocks are inlined).",
+   note="Trusted: reference update (harness/graph/update.go) and reference transform (refsel.Transform). Excluded where the contract is silent: removal/identity of absent targets, '-1' as list segment, list append with tail without createParents, subset matchers in transforms, null roots, LinkVisitOnlyOnce/SkipMe during transforms."),
  "C07": dict(
    category="exploration", design_ref="DESIGN.md §5 C07, Appendix A",
    technique="differential testing (rapid) of generated selector ASTs × generated linked block graphs against an independent reference interpreter of the selector semantics (thread-set big-step formulation), for WalkAdv and WalkMatching, three compilation routes",
